@@ -1,5 +1,7 @@
-/- Driver for C14: line = "(style env tree tmpl)<TAB>implObs"; see harness/props/c14. -/
+/- Driver for C14: line = "(style env tree tmpl)<TAB>implObs" (static form) or
+   "(style env tree tmpl ops)<TAB>implObs" (loaded tree + runtime writes); see harness/props/c14. -/
 import ControlModel.Model.Vars
+import ControlModel.Model.VarsTree
 import ControlModel.Spec.C14
 
 namespace Driver.C14
@@ -55,45 +57,104 @@ def parseObs : SExp → Option RoleObs
              stages := (← stages.mapM? parseKV), task := t }
   | _ => none
 
+/-! ### loaded trees + runtime writes (five-element input) -/
+
+def parseNode (kind : String) (d v u l : SExp) : Option Node := do
+  let own ← parseLevel [d, v, u]
+  pure { own := own, locals := (← parseKV l), task := kind == "T" }
+
+/-- Sibling template roles (plain or iterator) → `TForest`. -/
+partial def parseSiblings : List SExp → Option TForest
+  | [] => some .nil
+  | .list [.atom "I", .atom var, .list vals, .list (.atom kind :: d :: v :: u :: l :: kids)] :: more => do
+      let vs ← vals.mapM? SExp.str?
+      pure (.iter var vs (← parseNode kind d v u l) (← parseSiblings kids) (← parseSiblings more))
+  | .list (.atom kind :: d :: v :: u :: l :: kids) :: more => do
+      if kind == "I" then none else
+      pure (.role (← parseNode kind d v u l) (← parseSiblings kids) (← parseSiblings more))
+  | _ => none
+
+def parseWrite : SExp → Option Write
+  | .list [.atom tag, .list addr, .atom k, .atom v] => do
+      let a ← addr.mapM? SExp.nat?
+      match tag with
+      | "S" => some { on := a, global := false, op := .set k v }
+      | "G" => some { on := a, global := true, op := .set k v }
+      | _ => none
+  | .list [.atom tag, .list addr, .atom k] => do
+      let a ← addr.mapM? SExp.nat?
+      match tag with
+      | "D" => some { on := a, global := false, op := .del k }
+      | "X" => some { on := a, global := true, op := .del k }
+      | _ => none
+  | _ => none
+
+def nodeKeys (n : Node) : List String :=
+  keysOfKV n.own.defaults ++ keysOfKV n.own.vars ++ keysOfKV n.own.userVars ++ keysOfKV n.locals
+
+def tforestKeys : TForest → List String
+  | .nil => []
+  | .role n kids next => nodeKeys n ++ tforestKeys kids ++ tforestKeys next
+  | .iter var _ n kids next => var :: nodeKeys n ++ tforestKeys kids ++ tforestKeys next
+
+def envTmpl (envL tmplL : List SExp) : Option (Option Level × Option (KV × KV)) := do
+  let env ← match envL with
+    | [] => some none
+    | l => (parseLevel l).map some
+  let tmpl ← match tmplL with
+    | [] => some none
+    | [a, b] => do pure (some ((← parseKV a), (← parseKV b)))
+    | _ => none
+  pure (env, tmpl)
+
+/-- model observation, Spec on the implementation's observation, hypothesis id -/
+def verdict (keys : List String) (roles specRoles : List RoleIn) (impl : String)
+    (specOn : List RoleObs → Bool := caseOk keys specRoles) : String :=
+  if !keysClear keys then "BADINPUT\t0\t-" else
+  let special : KV := specialKeys.map fun k => (k, "?")
+  let model := SExp.list (roles.map fun r => obsSx (modelObs keys special r))
+  let obs? : Option (List RoleObs) :=
+    match (SExp.parse impl).bind SExp.list? with
+    | some os => os.mapM? parseObs
+    | none => none
+  let spec := match obs? with | some obs => specOn obs | none => false
+  -- a Spec failure is the known finding iff the observation is the as-coded
+  -- expectation and some role lies outside the partial theorem's hypothesis
+  let hyp :=
+    match spec, obs? with
+    | false, some obs =>
+      if decide (obs = specRoles.map (expectedAsCoded keys)) && specRoles.any (fun r => !tmplOrderIrrelevant keys r)
+      then "task_template_defaults_over_vars" else "-"
+    | _, _ => "-"
+  s!"{model}\t{if spec then 1 else 0}\t{hyp}"
+
 def processLine (line : String) : String :=
   match SExp.fields line with
   | [inp, impl] =>
     match SExp.parse inp with
     | some (.list [_style, .list envL, tree, .list tmplL]) =>
-      let env? : Option (Option Level) :=
-        match envL with
-        | [] => some none
-        | l => (parseLevel l).map some
-      let tmpl? : Option (Option (KV × KV)) :=
-        match tmplL with
-        | [] => some none
-        | [a, b] => do pure (some ((← parseKV a), (← parseKV b)))
-        | _ => none
-      match env?, tmpl? with
-      | some env, some tmpl =>
+      match envTmpl envL tmplL with
+      | some (env, tmpl) =>
         let above : Path := match env with | some e => [e] | none => []
         match walk tmpl above tree with
-        | some roles =>
-          let keys := keyUniverse env roles tmpl
-          if !keysClear keys then "BADINPUT\t0\t-" else
-          let special : KV := specialKeys.map fun k => (k, "?")
-          let model := SExp.list (roles.map fun r => obsSx (modelObs keys special r))
-          let obs? : Option (List RoleObs) :=
-            match (SExp.parse impl).bind SExp.list? with
-            | some os => os.mapM? parseObs
-            | none => none
-          let spec := match obs? with | some obs => caseOk keys roles obs | none => false
-          -- a Spec failure is the known finding iff the observation is the as-coded
-          -- expectation and some role lies outside the partial theorem's hypothesis
-          let hyp :=
-            match spec, obs? with
-            | false, some obs =>
-              if decide (obs = roles.map (expectedAsCoded keys)) && roles.any (fun r => !tmplOrderIrrelevant keys r)
-              then "task_template_defaults_over_vars" else "-"
-            | _, _ => "-"
-          s!"{model}\t{if spec then 1 else 0}\t{hyp}"
+        | some roles => verdict (keyUniverse env roles tmpl) roles roles impl
         | none => "BADINPUT\t0\t-"
-      | _, _ => "BADINPUT\t0\t-"
+      | none => "BADINPUT\t0\t-"
+    | some (.list [_style, .list envL, tree, .list tmplL, .list opsL]) =>
+      match envTmpl envL tmplL, parseSiblings [tree], opsL.mapM? parseWrite with
+      | some (env, tmpl), some tf, some ws =>
+        let above : Path := match env with | some e => [e] | none => []
+        let loaded := expand tf
+        -- the MODEL mutates the loaded tree write by write; the SPEC replays, per role,
+        -- only the writes made on that role or on one of its ancestors
+        let roles := rolesAfter loaded ws above tmpl
+        let specRoles := rolesReplayed loaded ws above tmpl
+        let lv (x : Level) := keysOfKV x.defaults ++ keysOfKV x.vars ++ keysOfKV x.userVars
+        let envKeys := match env with | some e => lv e | none => []
+        let tmplKeys := match tmpl with | some (a, b) => keysOfKV a ++ keysOfKV b | none => []
+        let keys := sortDedup (envKeys ++ tforestKeys tf ++ tmplKeys ++ ws.map (·.op.key))
+        verdict keys roles specRoles impl (writesOk keys loaded ws above tmpl)
+      | _, _, _ => "BADINPUT\t0\t-"
     | _ => "BADINPUT\t0\t-"
   | _ => "BADLINE\t0\t-"
 
